@@ -115,11 +115,11 @@ template <class T, class S0, class S1, class S2> struct MU : UniverseBase {
     template <size_t... D> static TensorMap<T, D...> reshape_to(Ten1 &s, shape_<D...>) { return reshape<D...>(s); }
     void refill(uint64_t salt, bool pow2) { for (int i = 0; i < SZ; ++i) { uint64_t hh = mix2(((uint64_t)dataseed << 20) ^ salt, (uint64_t)i); shadow[i] = pow2 ? pow2val<T>(hh) : smallval<T>(hh); buf[i] = shadow[i]; } }
     void setup(const Plan &p) override {
-        storage = (int)(p.hdr[H_STORAGE] % 2); side = p.hdr[H_SIDE] % 3; misalign = p.hdr[H_MISALIGN] % 64 / (uint32_t)alignof(T) * (uint32_t)alignof(T);
+        storage = (int)(p.hdr[H_STORAGE] % 2); side = p.hdr[H_SIDE] % 3; misalign = (p.hdr[H_MISALIGN] & 0x40) ? p.hdr[H_MISALIGN] % 64 : p.hdr[H_MISALIGN] % 64 / (uint32_t)alignof(T) * (uint32_t)alignof(T);   // bit 6: byte-granular (address not a multiple of sizeof(T))
         dataseed = p.hdr[H_DATA]; failalloc = p.hdr[H_FAILALLOC] & 1;
         uint32_t pat = p.hdr[H_POISON];
         g_arena.reset(0, pat); g_scrub_byte = (uint8_t)(0x47 + 5 * pat); g_stack_skew = (p.hdr[H_DATA] & 3) << 4;
-        if (storage == 0) { buf = (T *)g_arena.place(0, sizeof(T) * SZ, alignof(T), side, misalign, true); src = nullptr; }
+        if (storage == 0) { buf = (T *)g_arena.place(0, sizeof(T) * SZ, (p.hdr[H_MISALIGN] & 0x40) ? 1 : alignof(T), side, misalign, true); src = nullptr; }
         else { uint8_t *q = g_arena.place(0, sizeof(Ten1), alignof(Ten1), side, 0, true); memset(q, 0, sizeof(Ten1)); src = new (q) Ten1; buf = src->data(); misalign = 0; }
         refill(0, false);
         wrap(); last_writer = -1;
